@@ -88,7 +88,7 @@ class C19(Prop):
     lean_exe = "c19_driver"
     harness = "h_containers.c"
     theorems = ["EaselModel.Props.C19." + t for t in (
-        "keyhash_refines_partial", "keyhash_refines_jenkins_partial", "keyhash_ops_partial", "keyhash_upsize", "jenkins_in_range",
+        "keyhash_refines_partial", "keyhash_never_faults_partial", "keyhash_refines_jenkins_partial", "keyhash_ops_partial", "keyhash_upsize", "jenkins_in_range",
         "keyhash_embedded_nul_counterexample", "spec_store", "spec_lookup", "spec_get",
         "heap_insert", "heap_extract", "heap_sorts", "heap_drain", "heap_validate",
         "rb_insert", "rb_history", "rb_wf_iff", "rb_height", "rb_lookup", "rb_sorted_linked", "rb_linked_is_reverse_inorder",
@@ -176,6 +176,8 @@ class C19(Prop):
             ops.append("kh_new size=%d kalloc=%d salloc=%d" % (size, rng.choice([1, 1, 2, 3, 7, 128]), rng.choice([1, 1, 2, 5, 64, 2048])))
         pool = []
         seen = set()
+        cloned = False
+        pool2, seen2 = [], set()
         # a long history must be able to pile up thousands of keys: few reuses per case
         p_clone = min(0.03, 3.0 / max(1, nops))
         p_reuse = min(0.015, 1.2 / max(1, nops))
@@ -205,7 +207,14 @@ class C19(Prop):
                 ops.append(rng.choice(["getall", "num", "kh_sizes"]))
             elif r < 0.93 + p_clone:
                 ops.append("kh_clone")
-            elif r < 0.93 + p_clone + p_reuse:
+                pool2, seen2 = list(pool), set(seen)
+                if rng.random() < 0.5:
+                    ops.append("kh_swap")           # continue on the clone (the original stays alive in the other slot)
+                cloned = True
+            elif cloned and r < 0.93 + 2 * p_clone:
+                ops.append("kh_swap")
+                pool, seen, pool2, seen2 = pool2, seen2, pool, seen
+            elif r < 0.93 + 2 * p_clone + p_reuse:
                 ops.append("kh_reuse"); pool = []; seen = set()
             else:
                 ops.append(rng.choice(["getall", "num", "kh_sizes", "getall"]))
@@ -258,7 +267,9 @@ class C19(Prop):
         return ops
 
     def gen_rb(self, rng, nops, big):
-        ops = ["rb_new"]
+        # keys are sent as integers and stored as ldexp(k, exp): denormal, fractional and huge doubles with the same order
+        exp = rng.choice([0, 0, 0, -1, -20, -1074 + 54, -1000, 100, 900, 970, rng.randrange(-1020, 970)])
+        ops = ["rb_new exp=%d" % exp]
         present = []
         for _ in range(nops):
             r = rng.random()
@@ -287,7 +298,7 @@ class C19(Prop):
             elif r < 0.96:
                 ops.append("rb_list"); present = []
             else:
-                ops.append("rb_new"); present = []
+                ops.append("rb_new exp=%d" % exp); present = []
         ops += ["rb_hash", "rb_dump" if len(present) < 3000 else "rb_hash", "rb_list"]
         return ops
 
@@ -358,7 +369,7 @@ class C19(Prop):
                 keys = [("k%d" % i).encode() for i in range(n)]
                 ops = ["kh_new size=%d kalloc=%d salloc=%d" % (size, rng.choice([1, n, n + 1]), rng.choice([1, 4, 4096]))]
                 ops += ["store key=%s" % hx(k) for k in keys] + ["kh_sizes", "getall"]
-                ops += ["lookup key=%s" % hx(k) for k in keys] + ["store key=%s" % hx(keys[-1]), "lookup key=%s" % hx(b"k%d" % n), "kh_clone"]
+                ops += ["lookup key=%s" % hx(k) for k in keys] + ["store key=%s" % hx(keys[-1]), "lookup key=%s" % hx(b"k%d" % n), "kh_clone", "kh_swap"]
                 ops += ["lookup key=%s" % hx(k) for k in keys[:3]] + ["store key=%s" % hx(b"k%d" % n), "getall", "kh_sizes"]
                 out.append({"name": "kh-grow-%d-%d" % (size, extra), "sticky": 1, "ops": ops})
         for n in (0, 1, 2, 3):
@@ -373,18 +384,18 @@ class C19(Prop):
 
         def add(name, ops, sticky=1):
             out.append({"name": name, "ops": ops, "sticky": sticky})
-        nkh = 60 if quick else 400
+        nkh = 1500 if quick else 12000
         for c in range(nkh):
             add("kh%d" % c, self.gen_keyhash(rng, rng.choice([10, 40, 150, 400])))
         # growth of the default table: 128 -> 1024 (385 keys) -> 8192 (3073 keys); tiny tables with many small keys
-        for c in range(3 if quick else 12):
+        for c in range(16 if quick else 100):
             add("kh-default%d" % c, self.gen_keyhash(rng, 9000 if c == 0 else rng.choice([1200, 2500]), default=True, small_keys=(c % 2 == 0)))
-        for c in range(3 if quick else 12):
+        for c in range(16 if quick else 100):
             add("kh-small%d" % c, self.gen_keyhash(rng, 3000, small_keys=True))
         if not quick:
             add("kh-long0", self.gen_keyhash(rng, 100000, default=True, small_keys=True))
             add("kh-long1", self.gen_keyhash(rng, 100000, small_keys=True))
-        n = 40 if quick else 300
+        n = 1000 if quick else 8000
         big = 600 if quick else 3000
         for c in range(n):
             add("heap%d" % c, self.gen_heap(rng, rng.choice([5, 15, 40]), big))
@@ -406,8 +417,9 @@ class C19(Prop):
         if line.startswith("fault"):
             return "fault"
         if line.startswith("ok hashsize="):
-            # allocation sizes (kalloc/salloc) are not part of the abstract behaviour: compare table size and used arena only
-            return " ".join(w for w in line.split() if not w.startswith(("kalloc=", "salloc=")))
+            # table / allocation sizes are tuning constants, not part of the abstract behaviour (a different initial size or
+            # growth factor keeps the property): recorded as evidence (growth really happened), not compared
+            return "ok sizes"
         return line
 
     def compare(self, ctx, case, impl_out, model_out):
@@ -450,7 +462,8 @@ class C19(Prop):
     # ------------------------------------------------------------------ property monitor (the abstract types, in Python)
     def monitor(self, ctx, case, out):
         has_nul = False
-        keys, index = [], {}                 # insertion-ordered map
+        keys, index = [], {}                 # insertion-ordered map (current slot)
+        keys2, index2 = None, None           # the other slot (a clone or the original it was cloned from)
         heap, hmax = [], False               # sorted multiset
         rb = set()
         st, st_ordered, stype = [], True, "i"
@@ -466,7 +479,7 @@ class C19(Prop):
             w = l.split()
             # ---------------- keyhash
             if name in ("kh_new", "kh_default"):
-                keys, index = [], {}
+                keys, index = [], {}                # (the other slot, if any, is kept)
                 if l != "ok": return fail(i, "create failed")
             elif name in ("store", "lookup"):
                 k = unhx(kv["key"])
@@ -492,8 +505,23 @@ class C19(Prop):
             elif name == "kh_reuse":
                 keys, index = [], {}
                 if l != "ok": return fail(i, "reuse failed")
+            elif name == "kh_sizes":
+                try:
+                    hs = int(l.split()[1].split("=")[1])
+                    g = ctx.stats.setdefault("keyhash_table_sizes_seen", {})
+                    g[str(hs)] = g.get(str(hs), 0) + 1
+                    ctx.stats["keyhash_max_keys_in_a_table"] = max(ctx.stats.get("keyhash_max_keys_in_a_table", 0), len(keys))
+                except Exception:
+                    pass
             elif name == "kh_clone":
                 if l != "ok": return fail(i, "clone failed")
+                keys2, index2 = list(keys), dict(index)
+            elif name == "kh_swap":
+                if keys2 is None:
+                    if l != "bad-op": return fail(i, "no clone to swap with")
+                else:
+                    if l != "ok": return fail(i, "swap failed")
+                    keys, index, keys2, index2 = keys2, index2, keys, index
             # ---------------- heap
             elif name == "heap_new":
                 heap, hmax = [], kv.get("max") == "1"
@@ -621,7 +649,27 @@ class C19(Prop):
         return None
 
     def extra_evidence(self, ctx):
-        return {}
+        # measured input distribution of this run's generated cases (regenerated with the same seed)
+        import random, collections
+        rng_state = ctx.rng.getstate()
+        try:
+            ctx.rng = random.Random(ctx.seed * 7919 + 13)       # distribution sample; does not disturb anything (run is over)
+            cs = self.cases(ctx) if ctx.tier == "quick" else []
+        finally:
+            ctx.rng.setstate(rng_state) if False else None
+        opcount = collections.Counter()
+        keylen = collections.Counter()
+        maxops = 0
+        for c in cs:
+            maxops = max(maxops, len(c["ops"]))
+            for op in c["ops"]:
+                name, kv = kv_of(op)
+                opcount[name] += 1
+                if name in ("store", "lookup"):
+                    L = 0 if kv["key"] == "-" else len(kv["key"]) // 2
+                    keylen["0" if L == 0 else "1-8" if L <= 8 else "9-64" if L <= 64 else "65-255" if L <= 255 else "256-300"] += 1
+        return {"input_distribution": {"cases": len(cs), "max_ops_per_case": maxops, "ops": dict(opcount), "key_lengths": dict(keylen),
+                                       "note": "sample regenerated with a derived seed; thorough tier adds 10^5-op histories (kh-long*, heap-long, rb-long, stack-long, qsort-long)"}}
 
 
 SPEC = C19()
